@@ -443,6 +443,7 @@ func wireServer() *httptest.Server {
 
 type wireExec struct {
 	all, binned []wPart
+	barrier     *wBarrier
 	mutated     bool // a part was removed / the payload was split after parts were added
 	bin         sts.Payload
 	fails       []string
@@ -475,7 +476,68 @@ func (e *wireExec) fail(format string, a ...any) {
 
 // open is the sts.Open of the Bin: an in-memory file, or (small files, every fourth seed) a real
 // temporary file.
+// wBarrier lets the first read of each of `need` readers wait for the others (bounded).
+type wBarrier struct {
+	mu   sync.Mutex
+	need int
+	ch   chan struct{}
+}
+
+func (b *wBarrier) arrive() {
+	b.mu.Lock()
+	b.need--
+	if b.need == 0 {
+		close(b.ch) // later arrivals (need < 0) find the channel closed
+	}
+	b.mu.Unlock()
+	select {
+	case <-b.ch:
+	case <-time.After(2 * time.Second):
+	}
+}
+
+// wBarrierFile: the first Read returns at most half of what was asked for, then waits at the barrier.
+type wBarrierFile struct {
+	sts.Readable
+	b    *wBarrier
+	done bool
+}
+
+func (f *wBarrierFile) Read(p []byte) (int, error) {
+	if !f.done && len(p) > 1 {
+		f.done = true
+		n, err := f.Readable.Read(p[:(len(p)+1)/2])
+		f.b.arrive()
+		return n, err
+	}
+	return f.Readable.Read(p)
+}
+
+// freshBin builds another payload with the parts of e.binned, in their order.
+func (e *wireExec) freshBin() sts.Payload {
+	b := payload.NewBin(1<<40, e.open, func(f sts.File) string {
+		if x, ok := f.(*wBinnable); ok {
+			return x.p.d.Renamed
+		}
+		return ""
+	})
+	for _, p := range e.binned {
+		b.Add(&wBinnable{p: p})
+	}
+	return b
+}
+
 func (e *wireExec) open(f sts.File) (sts.Readable, error) {
+	r, err := e.openPlain(f)
+	if b := e.barrier; err == nil && b != nil {
+		// within one request the files are read one after the other, so the first two readers to arrive at the
+		// barrier belong to two different requests; later ones pass at once
+		return &wBarrierFile{Readable: r, b: b}, nil
+	}
+	return r, err
+}
+
+func (e *wireExec) openPlain(f sts.File) (sts.Readable, error) {
 	b, ok := f.(*wBinnable)
 	if !ok {
 		return nil, fmt.Errorf("not a wire binnable")
@@ -1341,6 +1403,68 @@ func (e *wireExec) Do(op []string) string {
 		g.recvs, g.prep = nil, nil
 		return "unmodelled"
 
+	case op[0] == "http2" && len(op) == 2:
+		// two overlapping calls of Transmit on ONE http.Client (main hands one client to all sender threads)
+		level, ok := atoi(op[1])
+		if !ok || level < 0 || level > 9 {
+			return "bad-op"
+		}
+		if len(e.binned) == 0 {
+			return "noparts"
+		}
+		if !e.partsOk() {
+			return "skip"
+		}
+		ts := wireServer()
+		u, _ := url.Parse(ts.URL)
+		port, _ := strconv.Atoi(u.Port())
+		g, src := e.newGK("stub")
+		cl := &stshttp.Client{SourceName: src, TargetHost: u.Hostname(), TargetPort: port, Compression: int(level),
+			Timeout: 20 * time.Second, Protocol: stshttp.ProtocolHTTP1}
+		// a sequential request first: only payloads that one request delivers completely are tried in parallel
+		// (names the receiver refuses etc. are the subject of the `http` op)
+		if n0, err0 := cl.Transmit(e.freshBin()); err0 != nil || n0 != len(e.binned) {
+			cl.Destroy()
+			wireGKs.Delete(src)
+			return "skip"
+		}
+		// two payloads of their own (a payload is owned by one sender thread; the CLIENT is what the threads share);
+		// both requests have read their first bytes before either goes on (2 s at most)
+		bins := [2]sts.Payload{e.freshBin(), e.freshBin()}
+		e.barrier = &wBarrier{need: 2, ch: make(chan struct{})}
+		var wg sync.WaitGroup
+		var ns [2]int
+		var errs [2]error
+		for i := 0; i < 2; i++ {
+			wg.Add(1)
+			go func(i int) {
+				defer wg.Done()
+				ns[i], errs[i] = cl.Transmit(bins[i])
+			}(i)
+		}
+		wg.Wait()
+		e.barrier = nil
+		cl.Destroy()
+		time.Sleep(20 * time.Millisecond)
+		e.mainOps++
+		wireGKs.Delete(src)
+		g.mu.Lock()
+		g.recvs, g.prep = nil, nil
+		g.mu.Unlock()
+		var parts []string
+		for i := 0; i < 2; i++ {
+			es := "ok"
+			if errs[i] != nil {
+				es = "err"
+			}
+			if ns[i] != len(e.binned) || errs[i] != nil {
+				e.fail("concurrent-transmit: two overlapping Transmit calls of one client (compression %d) for a conforming payload of %d parts: call %d returned n=%d err=%v",
+					level, len(e.binned), i, ns[i], errs[i])
+			}
+			parts = append(parts, fmt.Sprintf("n=%d %s", ns[i], es))
+		}
+		return strings.Join(parts, " ")
+
 	case op[0] == "http" && len(op) == 3:
 		gk := op[1]
 		if gk != "stub" && gk != "stage" {
@@ -1585,7 +1709,8 @@ func (wireComp) Corpus() [][]string {
 	return [][]string{
 		// conforming round trips: in memory, over HTTP (plain / gzip), real Transmit
 		with(two, "hdr", "enc 0 3 1", "enc 238 64", "decx / x -1 c 0 real 0 2", "decx / x -1 c 0 real 1 5 3",
-			"put stub / -1 x -1 c 0 0 real", "put stage / 6 x -1 c 0 0 real", "http stub 0", "http stage 9", "http stub 1"),
+			"put stub / -1 x -1 c 0 0 real", "put stage / 6 x -1 c 0 0 real", "http stub 0", "http stage 9", "http stub 1",
+			"http2 0", "http2 6", "http2 9", "http2 10"),
 		// the retry path: encoded once, a part removed (the last takes its place) / split, encoded and sent again
 		with(append(append([]string{}, two...), wPartLine("e", "", "c d", "h3", 1, 2, 30, 0, 30, 30, 5)),
 			"hdr", "http stub 0", "remove 0", "hdr", "decx / x -1 c 0 real 0 64", "put stub / -1 x -1 c 0 0 real", "http stub 0",
@@ -1838,6 +1963,10 @@ func (wireComp) Generate(r *Rand, tier string, n int) [][]string {
 			ops = append(ops, fmt.Sprintf("put %s %s %d x -1 %s %d 0 real", gk, escSep(sep), r.Range(-1, 9), []string{"c", "c", "b"}[r.Intn(3)], []int{0, 0, 0, 3}[r.Intn(4)]))
 			if sep == "/" || r.Chance(0.3) {
 				ops = append(ops, fmt.Sprintf("http %s %d", gk, r.Intn(10)))
+			}
+			if r.Chance(0.2) {
+				// all sender threads share one http.Client: two requests overlapping in time
+				ops = append(ops, fmt.Sprintf("http2 %d", r.Intn(10)))
 			}
 			if r.Chance(0.15) {
 				ops = append(ops, fmt.Sprintf("putgz %d %d %d", r.Intn(10), r.Range(0, 20), 20))
